@@ -350,3 +350,74 @@ def run(ctx):
                 okg = False
                 det.append("%s=%s" % (tg, fmt(v0)))
     ctx.check("size-budget", "grease/no-growth", okg, "a corrupted response copies the original fields (random SIG of 64 bytes)", "greased response contains %s" % det, ctx.loc(g))
+    # every pathology the injector can pick leaves the size alone: it is either the signature corruption above or a permutation of the fields
+    # (one (tag, value) pair pushed per index of a sample-without-replacement of all field positions).  Anything else may add bytes.
+    ae = ctx.fn("roughenough::grease::Grease::add_errors")
+    aev = W.ev(ae.path)
+    ar = aev.ret()
+    aalts = ar[1] if ar[0] == "phi" else (ar,)
+    npath = 0
+    for a2 in aalts:
+        a2 = values.strip_payload(a2)
+        npath += 1
+        if not (is_call(a2) and a2[1] in P.fns):
+            ctx.violation("size-budget", "grease/pathology#%d" % npath, "add_errors returns %s: not a recognised size-preserving transformation" % fmt(a2)[:160], ctx.loc(ae))
+            continue
+        pf = P.fns[a2[1]]
+        nm = pf.path.split("::")[-1]
+        if pf.path == g.path:
+            ctx.ok("size-budget", "grease/pathology/%s" % nm, "signature corruption (judged above)", ctx.loc(pf))
+            continue
+        pev = W.ev(pf.path)
+        pr = values.strip_payload(pev.ret())
+        okp, why = False, "its result is %s" % fmt(pr)[:120]
+        if is_call(pr) and callee_name(pr[1]) == "new_deliberately_invalid" and len(pr[2]) == 2 and all(isinstance(x, tuple) and x[0] == "obj" for x in pr[2]):
+            src = ("param", pf.path, 2)
+            nf = None
+            good = True
+            for obj, getter in zip(pr[2], ("tags", "values")):
+                grow = []
+                for (b, callee, argi, ap) in pev.events_on(obj[2]):
+                    if argi != 0 or not pf.blocks[b].term["arg_tys"][0].startswith("&mut"):
+                        continue
+                    cn = callee_name(callee)
+                    if cn in ("reserve", "reserve_exact", "clear", "truncate", "shrink_to_fit", "sort", "swap", "reverse", "iter_mut", "deref_mut", "as_mut_slice", "index_mut"):
+                        continue
+                    grow.append((b, cn))
+                if len(grow) != 1 or grow[0][1] != "push" or len(pf.in_loop(grow[0][0])) != 1:
+                    good = False
+                    why = "%s vector is grown by %s" % (getter, [x[1] for x in grow])
+                    break
+                b0 = grow[0][0]
+                lp = pf.in_loop(b0)[0]
+                val = W.expand(pev.call_args(b0)[1])
+                ie = None
+                from lib import iter_elem
+                gets = [x for x in values.subterms(val) if is_call(x) and callee_name(x[1]) in ("get", "index") and len(x[2]) == 2] + \
+                       [x for x in values.subterms(val) if isinstance(x, tuple) and x and x[0] == "index"]
+                okel = False
+                for x in gets:
+                    base, idx = (x[2][0], x[2][1]) if is_call(x) else (x[1], x[2])
+                    base = W.expand(base)
+                    if is_call(base) and callee_name(base[1]) == getter and base[2] and base[2][0] == src:
+                        ie = iter_elem(W, W.expand(idx))
+                        s_ = ie["container"] if ie else None
+                        while isinstance(s_, tuple) and s_ and (s_[0] == "reader" or (is_call(s_) and callee_name(s_[1]) in ("iter", "into_iter", "into_vec") and s_[2])):
+                            s_ = s_[1] if s_[0] == "reader" else W.expand(s_[2][0])
+                        if ie and ie["what"] == "elem" and is_call(s_) and callee_name(s_[1]) == "sample" and "index" in s_[1] and len(s_[2]) == 3 and s_[2][1] == s_[2][2]:
+                            cnt = uncast(s_[2][1])
+                            if is_call(cnt) and callee_name(cnt[1]) in ("num_fields", "len") and values.contains(cnt, lambda q: q == src):
+                                okel = True
+                                nf = cnt
+                # the push is on every pass of that loop, which is left only when the sample is exhausted
+                if not okel or not all(pf.dominates(b0, s0) for s0, d0 in lp["backedges"]):
+                    good = False
+                    why = "%s are not the source's %s taken at each index of index::sample(rng, n, n) with n the number of fields" % (getter, getter)
+                    break
+            okp = good
+            if good:
+                why = "a permutation: one (tag, value) pair of the source per sampled position, all positions once"
+        ctx.check("size-budget", "grease/pathology/%s" % nm, okp, "%s: %s" % (nm, why),
+                  "fault injection %s is not known to keep the response size (%s): a greased response may exceed the request" % (nm, why),
+                  ctx.loc(pf) if "::grease::" in pf.path else ctx.loc(ae))
+    ctx.floor("size-budget-pathologies", npath, 2, "pathologies add_errors can return")
